@@ -26,7 +26,7 @@ _PROGRAM: list = []
 def rewritten_attrs(f: FuncInfo, recv: ClassInfo | None = None):
     """(attr -> set of source attrs whose .replace_table result / comparison feeds the assignment, leaf attrs, compared names)"""
     if _PROGRAM:
-        f = inlined(_PROGRAM[0], f)     # closures (`def replace(x): return x.replace_table(a, b)`) and private helpers read through
+        f = inlined(_PROGRAM[0], f, recv)     # closures (`def replace(x): return x.replace_table(a, b)`) and private helpers read through
     selfname = f.params[0]
     out: dict[str, set] = {}
     leaves = set()
